@@ -609,16 +609,40 @@ func (e *Engine) runPath(h *ssa.Function, prefix []uint64, res *Result) {
 	for _, c := range e.pathCovers {
 		res.Covers[c]++
 	}
+	weight := func(vals []ReplayVal) uint64 {
+		var w uint64
+		for _, x := range vals {
+			if x.V < 1<<32 {
+				w += x.V
+			}
+		}
+		return w
+	}
 	record := func(vk, lbl string) {
 		key := vk + ":" + lbl
 		res.ViolCount[key]++
-		if res.ViolCount[key] > e.opts.MaxViol {
+		over := res.ViolCount[key] > e.opts.MaxViol
+		if over && vk != "fuel" {
 			return
 		}
 		vals, ok := e.fullModel(extra...)
 		v := Violation{Harness: h.Name(), Kind: vk, Label: lbl, Msg: msg, Values: vals, Dec: decString(e.dec), Notes: e.renderNotes(vals)}
 		if !ok {
 			v.Extra = map[string]string{"model": "unavailable (solver did not return sat on the full path condition)"}
+		}
+		if over {
+			// budget exhaustion is confirmed by a native timeout: keep the heaviest inputs (largest
+			// sizes/depths), which are the ones that take longest natively
+			mi := -1
+			for i := range res.Violations {
+				if res.Violations[i].Kind == vk && res.Violations[i].Label == lbl && (mi < 0 || weight(res.Violations[i].Values) < weight(res.Violations[mi].Values)) {
+					mi = i
+				}
+			}
+			if mi >= 0 && weight(vals) > weight(res.Violations[mi].Values) {
+				res.Violations[mi] = v
+			}
+			return
 		}
 		res.Violations = append(res.Violations, v)
 	}
